@@ -18,8 +18,9 @@
                       are `xstep` systems, so every `Duo` run satisfies the end-to-end conclusions in both directions.
     Part 3  `FS`      the full stack for one session: `ClientGlue` + `ServerGlue`, application calls, transport
                       `update` with an ADVERSARIAL inbox, transport `send_packets`; ghost logs.  Every `FS` step is
-                      matched by a (possibly empty) `Duo` run (`step_sim`), under the per-run hypotheses `RunOK`
-                      (`NoForgery` + `SingleSession`, see there).
+                      matched by a (possibly empty) `Duo` run (`step_sim`), under the per-run hypotheses `runOK`
+                      (= `NoForgeryRun` + `SingleSessionRun`, see there); `full_stack` is the composition.
+            3e        the ghost seal records are records of datagrams `send_packets` really emitted.
 -/
 import RenetVerif.Lemmas.System
 import RenetVerif.Lemmas.GlueInv
@@ -950,6 +951,26 @@ instance (a : AEAD) (cid : Nat) (fs : FS) (ops : List FSOp) : Decidable (NoForge
   inferInstanceAs (Decidable (_ = true))
 instance (a : AEAD) (cid : Nat) (fs : FS) (ops : List FSOp) : Decidable (SingleSessionRun a cid fs ops) :=
   inferInstanceAs (Decidable (_ = true))
+
+theorem runNF_prefix (a : AEAD) (cid : Nat) : ∀ (l1 l2 : List FSOp) (fs : FS),
+    runNF a cid fs (l1 ++ l2) = true → runNF a cid fs l1 = true
+  | [], _, _, _ => rfl
+  | op :: l1, l2, fs, h => by
+    simp only [List.cons_append, runNF, Bool.and_eq_true] at h ⊢
+    refine ⟨h.1, ?_⟩
+    cases hs : fs.step a cid op with
+    | none => rfl
+    | some fs' => rw [hs] at h; exact runNF_prefix a cid l1 l2 fs' h.2
+
+theorem runSS_prefix (a : AEAD) (cid : Nat) : ∀ (l1 l2 : List FSOp) (fs : FS),
+    runSS a cid fs (l1 ++ l2) = true → runSS a cid fs l1 = true
+  | [], _, _, _ => rfl
+  | op :: l1, l2, fs, h => by
+    simp only [List.cons_append, runSS, Bool.and_eq_true] at h ⊢
+    refine ⟨h.1, ?_⟩
+    cases hs : fs.step a cid op with
+    | none => rfl
+    | some fs' => rw [hs] at h; exact runSS_prefix a cid l1 l2 fs' h.2
 
 theorem runOK_split {a : AEAD} {cid : Nat} {fs : FS} {ops : List FSOp} (h : runOK a cid fs ops = true) :
     NoForgeryRun a cid fs ops ∧ SingleSessionRun a cid fs ops := by
